@@ -516,3 +516,181 @@ Proof.
   apply (typed_read_unembed k t body (pad t x) Hc).
   apply (roundtrip_value_sized t x body Hwt Hwv Hk Hb).
 Qed.
+
+(* ---------- the last step of the typed round trip: unembed (pad (embed v)) = v ---------- *)
+
+Lemma min_twos_len_pos z : (0 < min_twos_len z)%nat.
+Proof.
+  unfold min_twos_len. destruct (_ =? 0)%Z; [lia|].
+  set (m := if (z <? 0)%Z then _ else _). pose proof (Z.log2_nonneg m).
+  assert (0 <= (Z.log2 m + 1) / 8)%Z by (apply Z.div_pos; lia). lia.
+Qed.
+
+Lemma min_twos_len_range z :
+  (- 2 ^ (8 * Z.of_nat (min_twos_len z) - 1) <= z < 2 ^ (8 * Z.of_nat (min_twos_len z) - 1))%Z.
+Proof.
+  unfold min_twos_len. set (m := if (z <? 0)%Z then (- z - 1)%Z else z).
+  assert (Hm0 : (0 <= m)%Z) by (unfold m; destruct (z <? 0)%Z eqn:E; lia).
+  assert (Hzm : forall P, (m < P -> - P <= z < P)%Z) by (intros P; unfold m; destruct (z <? 0)%Z eqn:E; lia).
+  destruct (m =? 0)%Z eqn:E0.
+  - apply Z.eqb_eq in E0. change (8 * Z.of_nat 1 - 1)%Z with 7%Z. apply Hzm. rewrite E0. reflexivity.
+  - apply Z.eqb_neq in E0. assert (Hp : (0 < m)%Z) by lia.
+    pose proof (Z.log2_spec m Hp) as [_ Hlt]. pose proof (Z.log2_nonneg m) as Hl.
+    set (l := Z.log2 m) in *. rewrite Z2Nat.id by (assert (0 <= (l + 1) / 8)%Z by (apply Z.div_pos; lia); lia).
+    apply Hzm. eapply Z.lt_le_trans; [exact Hlt|]. unfold Z.succ. apply Z.pow_le_mono_r; lia.
+Qed.
+
+(* num_bigint: from_signed_bytes_be . to_signed_bytes_be = id *)
+Lemma big_of_min_twos z : big_of_bytes (min_twos z) = z.
+Proof.
+  unfold big_of_bytes, min_twos. pose proof (min_twos_len_pos z) as Hp.
+  assert (is_nil (enc_signed (min_twos_len z) z) = false) as ->.
+  { pose proof (enc_signed_length (min_twos_len z) z) as L. destruct (enc_signed _ z); [cbn in L; lia|reflexivity]. }
+  apply dec_enc_signed; [exact Hp|apply min_twos_len_range].
+Qed.
+
+Lemma nullable_embed k : nullable k = false -> forall t v, embed k t v <> Some CNull.
+Proof.
+  induction k as [l| |k IH|k IH|k IH|k IH|k IH|k IH|ka IHa kb IHb|ks]; cbn [nullable embed]; intros Hn t v; try discriminate Hn.
+  - destruct (leaf_embed l t v); cbn; discriminate.
+  - destruct v; discriminate.
+  - destruct v; try discriminate. apply IH. exact Hn.
+  - destruct (negb _); [discriminate|]. destruct v; try discriminate. apply IH. exact Hn.
+  - destruct v; try discriminate. apply IH. exact Hn.
+  - destruct v; try discriminate; destruct t; try discriminate; destruct (all_some _); discriminate.
+  - destruct v; try discriminate; destruct t; try discriminate; destruct (all_some _); discriminate.
+  - destruct v; try discriminate; destruct t; try discriminate; destruct (all_some _); discriminate.
+  - destruct v; try discriminate; destruct t; try discriminate.
+    match goal with |- option_map _ ?o <> _ => destruct o end; discriminate.
+Qed.
+
+(* a null position reads back as the carrier value that was written as null *)
+Lemma null_read k : plain k = true -> forall t v, embed k t v = Some CNull -> typed_read k t None = Ok v.
+Proof.
+  induction k as [l| |k IH|k IH|k IH|k IH|k IH|k IH|ka IHa kb IHb|ks]; cbn [plain]; intros Hp t v He; try discriminate Hp;
+    try (exfalso; revert He; apply nullable_embed; reflexivity).
+  - cbn [embed] in He. destruct v; try discriminate; [reflexivity|].
+    apply andb_true_iff in Hp as [Hn _]. apply negb_true_iff in Hn. exfalso. exact (nullable_embed k Hn t v He).
+  - apply andb_true_iff in Hp as [He' _]. exfalso. revert He. apply nullable_embed.
+    cbn [nullable]. destruct k; try discriminate He'. reflexivity.
+  - cbn [embed] in He. destruct v; try discriminate. cbn [typed_read]. rewrite (IH Hp t v He). reflexivity.
+Qed.
+
+Lemma map_res_all_some {A B} (g : A -> option B) (u : B -> dres A) (p : B -> B) l xs :
+  all_some (map g l) = Some xs ->
+  (forall v y, In v l -> g v = Some y -> u (p y) = Ok v) ->
+  map_res u (map p xs) = Ok l.
+Proof.
+  revert xs. induction l as [|v l IH]; intros xs H Hu.
+  - cbn in H. apply some_inj in H. subst xs. reflexivity.
+  - cbn [map] in H. apply all_some_cons in H as (y & r & Hy & Hr & ->).
+    cbn [map map_res]. rewrite (Hu v y (or_introl eq_refl) Hy). cbn [rbind].
+    rewrite (IH r Hr (fun v' y' Hv => Hu v' y' (or_intror Hv))). reflexivity.
+Qed.
+
+Lemma leaf_unembed_pad l t v x :
+  typed_check (KLeaf l) t = true -> leaf_embed l t v = Some x -> leaf_unembed l t (pad t x) = Ok v.
+Proof.
+  intros Hc He. cbn [typed_check] in Hc. destruct (native_in_inv _ _ Hc) as (n & ->).
+  destruct l; destruct v; cbn [leaf_embed] in He; try discriminate He; apply some_inj in He; subst x;
+    destruct n; try discriminate Hc; cbn [pad leaf_unembed]; try reflexivity.
+  rewrite big_of_min_twos. reflexivity.
+Qed.
+
+Definition UE (k : carrier) : Prop := forall t v x,
+  plain k = true -> typed_check k t = true -> embed k t v = Some (CVal x) -> unembed k t (pad t x) = Ok v.
+
+Lemma ue_tuple_go_pad ks : Forall UE ks -> forall ts vs xs,
+  forallb plain ks = true -> List.length ks = List.length ts -> tc_tuple_go ks ts = true ->
+  emb_tuple_go embed ks ts vs = Some xs ->
+  ue_tuple_go typed_read unembed ks ts (pad_tuple_go pad ts xs) = Ok vs.
+Proof.
+  induction 1 as [|k1 ks H1 HF IH]; intros ts vs xs Hp Hlen Hc He.
+  - destruct vs; [|discriminate]. destruct ts; reflexivity.
+  - destruct ts as [|t1 ts]; [discriminate|]. destruct vs as [|v1 vs]; [discriminate|].
+    cbn [forallb] in Hp. apply andb_true_iff in Hp as [Hp1 Hps].
+    cbn [tc_tuple_go] in Hc. apply andb_true_iff in Hc as [Hc1 Hcs].
+    cbn [emb_tuple_go] in He. destruct (embed k1 t1 v1) as [c1|] eqn:E1; [|discriminate].
+    destruct (emb_tuple_go embed ks ts vs) as [r|] eqn:Er; [|destruct c1; discriminate].
+    pose proof (IH ts vs r Hps ltac:(cbn in Hlen; lia) Hcs Er) as Hrec.
+    destruct c1 as [| |x1]; try discriminate; apply some_inj in He; subst xs; cbn [pad_tuple_go option_map ue_tuple_go].
+    + rewrite (null_read k1 Hp1 t1 v1 E1). cbn [rbind]. rewrite Hrec. reflexivity.
+    + rewrite (H1 t1 v1 x1 Hp1 Hc1 E1). cbn [rbind]. rewrite Hrec. reflexivity.
+Qed.
+
+Theorem unembed_pad_embed k : UE k.
+Proof.
+  induction k as [l| |k IH|k IH|k IH|k IH|k IH|k IH|ka kb IHa IHb|ks IH] using carrier_ind'; intros t v x Hp Hc He;
+    cbn [plain] in Hp; try discriminate Hp.
+  - cbn [embed] in He. destruct (leaf_embed l t v) as [y|] eqn:E; [|discriminate]. cbn in He.
+    apply some_inj in He. inversion He; subst y. cbn [unembed]. apply leaf_unembed_pad; assumption.
+  - (* Option *)
+    apply andb_true_iff in Hp as [_ Hp]. cbn [embed typed_check unembed] in *. destruct v; try discriminate.
+    rewrite (IH t v x Hp Hc He). reflexivity.
+  - (* MaybeEmpty *)
+    apply andb_true_iff in Hp as [Hem Hp]. cbn [typed_check] in Hc. apply andb_true_iff in Hc as [_ Hc].
+    cbn [embed] in He. destruct (negb _); [discriminate|].
+    destruct k as [l| | | | | | | | |]; try discriminate Hem. cbn [typed_check] in Hc.
+    destruct (native_in_inv _ _ Hc) as (n & ->).
+    assert (Hs : is_string_type (TNative n) = false).
+    { destruct l; try discriminate Hem; destruct n; try discriminate Hc; reflexivity. }
+    destruct v; try discriminate.
+    + apply some_inj in He. inversion He; subst x. cbn [unembed].
+      destruct n; try discriminate Hs; reflexivity.
+    + pose proof (IH (TNative n) v x Hp Hc He) as Hu. cbn [unembed] in *.
+      cbn [embed] in He. destruct (leaf_embed l (TNative n) v) as [y|] eqn:E; [|discriminate]. cbn in He.
+      apply some_inj in He. inversion He; subst y.
+      assert (Hne : pad (TNative n) x <> CEmpty).
+      { destruct l; destruct v; cbn [leaf_embed] in E; try discriminate E; apply some_inj in E; subst x;
+          destruct n; try discriminate Hc; cbn [pad]; discriminate. }
+      rewrite Hu. destruct (pad (TNative n) x); try reflexivity. congruence.
+  - (* pointers *)
+    cbn [embed typed_check unembed] in *. destruct v; try discriminate. rewrite (IH t v x Hp Hc He). reflexivity.
+  - (* Vec *)
+    cbn [embed] in He. destruct v; try discriminate. cbn [typed_check] in Hc.
+    destruct t as [|e|e| | | |e d]; try discriminate Hc;
+      destruct (all_some _) as [xs|] eqn:Ea; try discriminate; cbn [option_map] in He; apply some_inj in He;
+      inversion He; subst x; cbn [pad unembed];
+      rewrite (map_res_all_some _ (unembed k e) (pad e) l xs Ea); try reflexivity;
+      intros v' y _ Hy; destruct (embed k e v') as [c|] eqn:Ev; try discriminate; destruct c; try discriminate;
+      cbn in Hy; apply some_inj in Hy; subst; apply (IH e v' _ Hp Hc Ev).
+  - (* sets *)
+    cbn [embed] in He. destruct v; try discriminate. cbn [typed_check] in Hc.
+    destruct t as [| |e| | | |]; try discriminate Hc.
+    destruct (all_some _) as [xs|] eqn:Ea; try discriminate. cbn [option_map] in He. apply some_inj in He.
+    inversion He; subst x. cbn [pad unembed].
+    rewrite (map_res_all_some _ (unembed k e) (pad e) l xs Ea); [reflexivity|].
+    intros v' y _ Hy. destruct (embed k e v') as [c|] eqn:Ev; try discriminate. destruct c; try discriminate.
+    cbn in Hy. apply some_inj in Hy. subst. apply (IH e v' _ Hp Hc Ev).
+  - (* maps *)
+    apply andb_true_iff in Hp as [Hpa Hpb]. cbn [embed] in He. destruct v; try discriminate. cbn [typed_check] in Hc.
+    destruct t as [| | |tk tv| | |]; try discriminate Hc. apply andb_true_iff in Hc as [Hca Hcb].
+    destruct (all_some _) as [xs|] eqn:Ea; try discriminate. cbn [option_map] in He. apply some_inj in He.
+    inversion He; subst x. cbn [pad unembed].
+    rewrite (map_res_all_some _
+               (fun kv => rbind (unembed ka tk (fst kv)) (fun a => rbind (unembed kb tv (snd kv)) (fun b => Ok (a, b))))
+               (fun kv => (pad tk (fst kv), pad tv (snd kv))) l xs Ea); [reflexivity|].
+    intros kv y _ Hy. destruct (embed ka tk (fst kv)) as [ca|] eqn:Ea1; try discriminate.
+    destruct ca as [| |a]; try discriminate. destruct (embed kb tv (snd kv)) as [cb|] eqn:Eb1; try discriminate.
+    destruct cb as [| |b]; try discriminate. apply some_inj in Hy. subst y. cbn [fst snd].
+    rewrite (IHa tk _ _ Hpa Hca Ea1). cbn [rbind]. rewrite (IHb tv _ _ Hpb Hcb Eb1). cbn [rbind].
+    destruct kv; reflexivity.
+  - (* tuples *)
+    destruct v; try (cbn [embed] in He; discriminate). destruct t as [| | | |ts| |]; try (cbn [embed] in He; discriminate).
+    rewrite embed_tuple in He. destruct (emb_tuple_go embed ks ts l) as [xs|] eqn:Eg; [|discriminate].
+    cbn [option_map] in He. apply some_inj in He. inversion He; subst x.
+    rewrite typed_check_tuple in Hc. apply andb_true_iff in Hc as [Hlen Hc]. apply Nat.eqb_eq in Hlen.
+    rewrite pad_tuple, unembed_tuple. rewrite (ue_tuple_go_pad ks IH ts l xs Hp Hlen Hc Eg). reflexivity.
+Qed.
+
+(* the typed round trip, complete: what a plain carrier writes, its own decoder reads back as the
+   SAME carrier value *)
+Theorem typed_roundtrip_exact k t v x b :
+  plain k = true -> embed k t v = Some (CVal x) -> typed_check k t = true ->
+  wf t x = true -> known_class t x = false ->
+  typed_write k true t v = Ok b ->
+  exists body, b = framed body /\ typed_read k t (Some body) = Ok v.
+Proof.
+  intros Hp He Hc Hwf Hk Hw. destruct (typed_roundtrip k t v x b He Hc Hwf Hk Hw) as (body & -> & Hr).
+  exists body. split; [reflexivity|]. rewrite Hr. apply unembed_pad_embed; assumption.
+Qed.
